@@ -138,8 +138,8 @@ Definition mismatches (cs : list ccase) : list nat := mismatches_from bad 0 cs.
 
 (* helpers used by the harness printer *)
 Definition CO (g : graph) (d : nat) : cobj := {| co_graph := g; co_depth := d |}.
-Definition CA (v : val) (os : list copt) (m : option nat) (f : bool) (suffix : string) : call :=
-  {| ca_in := v; ca_opts := os; ca_max := m; ca_fut := f; ca_suffix := suffix |}.
+Definition CA (v : val) (os : list copt) (m : option nat) (f : bool) (suffix : string) (cancel : option nat) : call :=
+  {| ca_in := v; ca_opts := os; ca_max := m; ca_fut := f; ca_cancel := cancel; ca_suffix := suffix |}.
 Definition TC (id name args : string) : tcall := {| tc_id := id; tc_name := name; tc_args := args |}.
 Definition MSG (role content : string) (calls : list tcall) : msg :=
   {| m_role := role; m_content := content; m_calls := calls; m_for := "" |}.
